@@ -54,6 +54,35 @@ def impl_range(nav: Any, path: Path) -> str:
         return "none:" + err_enum(ex)
 
 
+def held_ranges(nav: Any, paths: list[Path]) -> dict[Path, str]:
+    """the byte range of every path when navigators are HELD: per depth, first every occurrence navigator of every table is taken
+    from the one table navigator, then the named members are reached through them, and only when all navigators exist are their
+    locations read (a client that builds `items = [tbl.index(i) for i in …]` before looking at any of them)"""
+    memo: dict[Path, Any] = {(): nav}
+    order = sorted((p for p in paths if p), key=lambda p: (len(p), 0 if isinstance(p[-1], int) else 1))
+    for p in order:
+        parent = memo.get(p[:-1])
+        if parent is None or isinstance(parent, str):
+            continue
+        try:
+            memo[p] = parent.index(p[-1]) if isinstance(p[-1], int) else parent.name(p[-1])
+        except BaseException as ex:  # noqa: BLE001
+            memo[p] = "none:" + err_enum(ex)
+    out: dict[Path, str] = {}
+    for p in paths:
+        n = memo.get(p)
+        if n is None:
+            continue
+        if isinstance(n, str):
+            out[p] = n
+            continue
+        try:
+            out[p] = f"{n.location.start}:{n.location.end}"
+        except BaseException as ex:  # noqa: BLE001
+            out[p] = "none:" + err_enum(ex)
+    return out
+
+
 def pattern_record(n: int) -> bytes:
     """position-revealing bytes: no two windows of length >= 2 starting at different offsets are equal (n < 62000)"""
     return bytes(((i * 7) ^ (i >> 8) * 13 + (i >> 3)) & 0xFF for i in range(n))
